@@ -16,14 +16,14 @@ from pbt.core import clause, enum_clause, HarnessError
 PROPERTY = "C16"
 CLAUSES = []
 ASSUMPTIONS = [
-    "records: finite values with |v| <~ 1e15 (DESIGN: 0, +-tiny < 5e-7, +-O(1), +-1e6..1e15, integers, format edge values and exact "
-    "decimal ties), passed as float64 ndarray, int64 ndarray, list or a strided / reversed / read-only view (save_values_and_dt "
+    "records: finite values (DESIGN: 0, +-tiny < 5e-7, +-O(1), +-1e6..1e15, integers, format edge values and exact decimal ties; "
+    "'every magnitude': also a few +-1e15..1e300, |v*m| stays below 1e304; the int64 variant is clipped to +-1e15), passed as float64 ndarray, int64 ndarray, list or a strided / reversed / read-only view (save_values_and_dt "
     "documents `values: array_like`); 1 <= n <= 400 in the Hypothesis clauses, 401 .. ~110 000 (thorough ~1 000 000) samples in the "
     "deterministic enumeration `mid-range` and 2^k-1, 2^k, 2^k+1 in `block-lengths`, both with the same oracle (every value, dt, npts, "
     "type, label, m) as the short records; dt in [1e-4, 100] (float, or int when integral: an int is acceptable wherever a float "
     "is documented)",
     "labels: 'labels with spaces' is read as plain printable labels: str of printable ASCII (0x20..0x7e, so no line breaks, no tab, no "
-    "non-ASCII), 0..200 characters, including empty, leading/trailing blanks, digits first, '#', ','.  'The same label' is read "
+    "non-ASCII), 0..200 characters (long records: 0..300), including empty, leading/trailing blanks, digits first, '#', ','.  'The same label' is read "
     "literally (string equality, blanks at either end included: a label that comes back stripped is not the same label).  "
     "Non-ASCII and tab labels are NOT generated (the quantifier does not name them)",
     "load factor m: 'all ... m' - 1, -2.5, 1e-3, signed log-uniform [1e-3,1e3], +-2^k, small integers given as int, 0 (the loaded "
@@ -192,6 +192,7 @@ _ELEM = st.one_of(
     _signed(gen.log_uniform(1e-12, 4.99e-7)),                          # +-tiny: lost by the format
     st.floats(-100.0, 100.0, allow_nan=False, allow_subnormal=False),  # +-O(1)
     _signed(gen.log_uniform(1e6, 1e15)),                               # +-large
+    _signed(gen.log_uniform(1e15, 1e300)),                             # +-huge ('every value sign and magnitude')
     st.integers(-10 ** 6, 10 ** 6).map(float),                         # integers
 )
 _DT_SPECIAL = [1.0, 1.5, 2.0, 10.0, 99.9999, 0.0001, 100.0, 0.99996, 0.99994, 99.99996, 0.01, 0.02, 0.005, 0.0025, 0.5,
@@ -274,6 +275,8 @@ def _cases(draw, min_n=2, max_n=400, objects=True):
 def _build(spec):
     """-> (argument handed to the library, float64 array of the values the library sees)."""
     a = np.array(spec["v"], dtype=float) if spec["k"] == "mix" else gen.build(spec)
+    if spec.get("as") == "int":
+        a = np.clip(a, -1e15, 1e15)  # the int64 variant of the record cannot hold the huge class
     arg = gen.as_container(spec, a)
     return arg, np.array(arg, dtype=float)
 
@@ -441,8 +444,9 @@ _REQ = {"dt>=1": 0.25, "neg": 0.30, "label-space": 0.15, "label-edge-blank": 0.0
 
 @clause(CLAUSES, "values-and-dt", _cases(objects=False), quick=400, thorough=2000,
         rule="records n 2..400 (element-wise mix of 0, +-tiny<5e-7, +-O(1), +-1e6..1e15, integers, format edge values; or "
-             "recipes with amplitude 1e-7..1e14; ndarray/int64/list), dt log-uniform [1e-4,100] + {1,1.5,2,10,99.9999,1e-4,100,"
-             "0.99996,...}, printable-ASCII labels (blanks, digits first, '#', ',', empty); "
+             "recipes with amplitude 1e-7..1e14; ndarray/int64/list/views), dt log-uniform [1e-4,100] + {1,1.5,2,10,99.9999,1e-4,100,"
+             "0.99996,...}, printable-ASCII labels (blanks, digits first, '#', ',', empty, up to 200 characters), five path forms "
+             "(.txt, other / no extension, blank and '#' in the name); "
              "non-trivial = some value is non-zero after rounding to 6 decimals",
         oracle="round trip save_values_and_dt -> load_values_and_dt against the rational model of the format's rounding: "
                "same n, dt == round(dt,4 decimals), values == round(v,6 decimals), 1e-12 relative",
@@ -461,12 +465,14 @@ def values_and_dt(case, ctx):
 
 @clause(CLAUSES, "signal-objects", _cases(objects=True), quick=400, thorough=2000,
         rule="same generator; the record is saved with save_signal from a Signal or an AccSignal carrying the label; "
-             "m in {1,-2.5,1e-3} + signed log-uniform [1e-3,1e3] + powers of two + not given; "
+             "m in {1,-2.5,1e-3} + signed log-uniform [1e-3,1e3] + powers of two + {0, 2, -3, 10 as int} + not given; in one case of "
+             "four the object is built with another record and given the record through reset_values; "
              "non-trivial = some value is non-zero after rounding to 6 decimals",
         oracle="round trip save_signal -> load_signal('signal'|'acc_sig'), load_sig(m), load_asig(load_label, m), "
                "load_values_and_dt: requested type, npts, dt to 4 decimals, values == round(v,6)*m (1e-12 relative), label equal "
                "when requested",
-        require=dict(_REQ, **{"m<0": 0.10, "m=default": 0.05, "saved=signal": 0.2, "saved=acc_sig": 0.2}))
+        require=dict(_REQ, **{"m<0": 0.10, "m=default": 0.05, "saved=signal": 0.2, "saved=acc_sig": 0.2, "m=0": 0.02,
+                              "path=noext": 0.04, "label-long": 0.02, "via-reset": 0.1}))
 def signal_objects(case, ctx):
     arg, seen = _build(case["rec"])
     model = _Model(seen)
@@ -541,6 +547,7 @@ def _long_values(n, seed, kind, amp, polarity="both"):
         v = np.where((u >= 0.20) & (u < 0.30), rs.randint(-10 ** 6, 10 ** 6, n).astype(float), v)
         v = np.where((u >= 0.30) & (u < 0.34), sg * 0.0, v)
         v = np.where((u >= 0.34) & (u < 0.38), np.array(_EDGE)[rs.randint(0, len(_EDGE), n)], v)
+        v = np.where((u >= 0.38) & (u < 0.39), sg * 10.0 ** rs.uniform(15.0, 300.0, n), v)
     elif kind != "ordinary":
         raise ValueError(kind)
     v[0] = 0.654321 * float(amp)
@@ -597,11 +604,19 @@ _LONG_M = [None, 1.0, -2.5, 1e-3, 0, 2, -3, 9.81, -0.0625, 386.0886]
 _LONG_DT = [0.01, 0.005, 0.02, 0.0025, 0.004, 0.001, 0.1, 1.0, 1.5, 2, 10, 12.3456, 99.9999, 100, 0.0001, 0.99996]
 
 
+def _long_dt(tag, i):
+    """Two cases in five: one of the listed steps; otherwise log-uniform in [1e-4, 100] cut to 4 decimals (all four decimals of
+    the header carry information, so a header written with fewer is seen whatever the record length)."""
+    if _hu(tag, "dtk", i) < 0.4:
+        return _hpick(_LONG_DT, tag, "dt", i)
+    return max(1e-4, min(100.0, round(math.exp(math.log(1e-4) + math.log(1e6) * _hu(tag, "dtv", i)), 4)))
+
+
 def _long_case(n, i, tag):
     c = {"n": int(n), "seed": _sd(tag, i), "kind": _hpick(["ordinary", "mix", "mix"], tag, "kind", i),
          "amp": _hpick([1.0, 1.0, 0.01, 37.5, 2500.0, 1e-4], tag, "amp", i), "polarity": _hpick(["both", "both", "neg", "pos"], tag, "pol", i),
          "as": _hpick(["ndarray", "ndarray", "list", "int", "view", "readonly"], tag, "as", i),
-         "dt": _hpick(_LONG_DT, tag, "dt", i), "m": _hpick(_LONG_M, tag, "m", i),
+         "dt": _long_dt(tag, i), "m": _hpick(_LONG_M, tag, "m", i),
          "saved_as": _hpick(["values", "signal", "acc_sig"], tag, "sv", i), "via_reset": _hu(tag, "vr", i) < 0.35,
          "path": _hpick(PATH_FORMS, tag, "path", i)}
     if _hu(tag, "lab", i) < 0.5:
@@ -630,6 +645,8 @@ def _long_check(case, ctx):
     n = int(case["n"])
     v = _long_values(n, case["seed"], case["kind"], case["amp"], case.get("polarity", "both"))
     spec = {"as": case["as"]} if case["as"] != "ndarray" else {}
+    if case["as"] == "int":
+        v = np.clip(v, -1e15, 1e15)  # the int64 variant of the record cannot hold the huge class
     arg = gen.as_container(spec, v)
     seen = np.array(arg, dtype=float)
     model = _FastModel(seen)
@@ -683,8 +700,8 @@ _LONG_ORACLE = ("round trip save_values_and_dt | save_signal(Signal | AccSignal,
 @enum_clause(CLAUSES, "mid-range", _mid_enum,
              rule="record lengths gen.size_ladder(401, 100000, 14) + one 'round' length per octave (1000, 2500, 16000 ...) + 2nd / 3rd multiples "
                   "of the integer literals of the source + an anchor just above 100000 (thorough: to 1 000 000, 34 + 14 rungs); ordinary "
-                  "(noise x envelope + offset, amplitudes 1e-4 .. 2500, two-sided / all non-positive / all non-negative) or the class mix (tiny, +-1e6..1e15, integers, zeros, format edge values "
-                  "and exact ties sprinkled in); ndarray / list / int64 / strided / read-only; dt from 16 values incl. >= 1 s and int; m from "
+                  "(noise x envelope + offset, amplitudes 1e-4 .. 2500, two-sided / all non-positive / all non-negative) or the class mix (tiny, +-1e6..1e15, a few up to 1e300, integers, zeros, format edge values "
+                  "and exact ties sprinkled in); ndarray / list / int64 / strided / read-only; dt from 16 listed values incl. >= 1 s and int or log-uniform [1e-4,100] with 4 decimals; m from "
                   "{not given, 1, -2.5, 1e-3, 0, 2, -3, 9.81, -1/16, 386.0886}; labels special or random printable of laddered length 3..300; "
                   "five path forms; by hash of (VERIF_SEED, index)",
              oracle=_LONG_ORACLE,
